@@ -134,6 +134,14 @@ def run(ck: Check) -> None:
     t0 = time.time()
     ck.try_prove("C13.v", model_vo=("theories/ConstExpr.vo",))
     timings = {"prove_s": round(time.time() - t0, 1)}
+    if any("translat" in b["what"] for b in ck.broken_obligations):
+        # the source no longer translates: the LAST ACCEPTED translation (coq/ref/GenC13.v) stands in
+        # for the model while the implementation is searched for a concrete failing input
+        import shutil
+        shutil.copy(os.path.join(vlib.COQ, "ref", "GenC13.v"), os.path.join(vlib.COQ, "gen", "GenC13.v"))
+        ok, log = vlib.coq_build(["theories/ConstExpr.vo"])
+        ck.model_ok = ok
+        ck.coverage["tie"]["model_from_reference_translation"] = True
 
     rng = ck.rng
     progs: List[Dict[str, Any]] = []
@@ -147,12 +155,17 @@ def run(ck: Check) -> None:
         if "program" in j:
             progs.append(j["program"])
             origins.append("replay:" + os.path.basename(ck.replay_file))
-    n_main, n_str, n_dz, n_err = (ck.n(70, 1200), ck.n(24, 300), ck.n(8, 80), ck.n(12, 120))
+    n_main, n_str, n_dz, n_err = (ck.n(60, 1200), ck.n(20, 300), ck.n(6, 80), ck.n(10, 120))
     k = 0
     for _ in range(n_main):
         progs.append(G.gen_main_program(rng, k)); origins.append(f"gen#{k}"); k += 1
     for _ in range(n_str):
         progs.append(G.gen_string_program(rng, k)); origins.append(f"inside-known-class(str)#{k}"); k += 1
+    sweep = G.escape_sweep_programs(k)
+    if ck.quick:
+        sweep = rng.sample(sweep, 2)
+    for sp in sweep:
+        progs.append(sp); origins.append(f"inside-known-class(escape sweep)#{k}"); k += 1
     for _ in range(n_dz):
         progs.append(G.gen_divzero_program(rng, k)); origins.append(f"inside-known-class(div)#{k}"); k += 1
     for _ in range(n_err):
